@@ -719,10 +719,82 @@ fn gen_c15(rng: &mut Rng, out: &mut Vec<Case>) {
     out.push(Case { line: format!("ddl | {}", line), tags });
 }
 
+/// DROP COLUMN (last / middle / first) then ADD COLUMN (same name / new name) on a table that never held a row, rows
+/// inserted afterwards, and every column name — dropped, re-added, new, surviving — resolved by a later statement;
+/// in autocommit or inside a committed session, sometimes followed by reopen.  (A stale name → position map in the
+/// stored schema shows only through these follow-ups.)
+fn gen_drop_then_add(rng: &mut Rng, out: &mut Vec<Case>) {
+    let t = "t";
+    let n = rng.range(2, 4) as usize;
+    let names = ["a", "b", "c", "d"];
+    let mut cols: Vec<String> = names[..n].iter().map(|x| x.to_string()).collect();
+    let mut ops: Vec<String> = Vec::new();
+    ops.push(format!("db ct {}({})", t, cols.iter().map(|c| format!("{}:int", c)).collect::<Vec<_>>().join(",")));
+    let mut ever: Vec<String> = cols.clone();
+    let in_session = rng.chance(1, 3);
+    let pfx = if in_session { "s1" } else { "db" };
+    if in_session {
+        ops.push("s1 begin".into());
+    }
+    let rounds = rng.range(1, 2);
+    let mut fresh = 0;
+    for _ in 0..rounds {
+        if cols.len() < 2 {
+            break;
+        }
+        let which = match rng.below(3) {
+            0 => cols.len() - 1,
+            1 => cols.len() / 2,
+            _ => 0,
+        };
+        let gone = cols.remove(which);
+        ops.push(format!("{} dc {} {}", pfx, t, gone));
+        ops.push(format!("{} sel {} where {} ge 0", pfx, t, gone));
+        let newname = if rng.chance(1, 2) {
+            gone.clone()
+        } else {
+            fresh += 1;
+            format!("n{}", fresh)
+        };
+        ops.push(format!("{} ac {} {}:int", pfx, t, newname));
+        cols.push(newname.clone());
+        if !ever.contains(&newname) {
+            ever.push(newname);
+        }
+    }
+    // an existing column name must be refused (the table is still empty: no schema change, no populated ALTER)
+    ops.push(format!("{} ac {} {}:int", pfx, t, cols[0]));
+    if in_session {
+        ops.push("s1 commit".into());
+    }
+    // rows after all ALTERs: value of column i of row r is 10*r + i
+    for r in 1..=2 {
+        let vals: Vec<String> = (0..cols.len()).map(|i| (10 * r + i as i64).to_string()).collect();
+        ops.push(format!("db ins {} {}", t, vals.join(" ")));
+    }
+    let probe = |ops: &mut Vec<String>| {
+        ops.push(format!("db sel {}", t));
+        for c in &ever {
+            ops.push(format!("db sel {} where {} ge 0", t, c));
+        }
+    };
+    probe(&mut ops);
+    if rng.chance(1, 2) {
+        ops.push("reopen".into());
+        probe(&mut ops);
+    }
+    let tags: Vec<String> = vec!["c15".into(), "drop_then_add_column".into(), "nt".into(), "clean".into()];
+    out.push(Case { line: format!("ddl | {}", ops.join(" ; ")), tags });
+}
+
 impl Engine for DdlEngine {
     fn gen_cases(&self, rng: &mut Rng, tier: Tier) -> Vec<Case> {
         let mut out = Vec::new();
+        for _ in 0..(if tier == Tier::Quick { 150 } else { 1500 }) {
+            gen_drop_then_add(rng, &mut out);
+        }
         let want = if tier == Tier::Quick { 600 } else { 6000 };
+        let want = want + out.len();
         while out.len() < want {
             gen_c15(rng, &mut out);
         }
